@@ -33,6 +33,7 @@ Definition from_key (keyf : list (field * src)) (key : list Z) (buildf : list (f
 
 Section Transparent.
   Variable T : tables.
+  Hypothesis pure : t_pure T = true.
 
   Lemma key_lookup_value : forall s pid r keyf,
     existsb (fun q => field_eqb (fst q) (fst r) && src_eqb (snd q) (snd r)) keyf = true ->
@@ -165,6 +166,7 @@ Section Transparent.
     - destruct I as (_ & _ & G). split; [intros e []|]. split; [intros e []|]. assumption.
     - destruct I as (C1 & C2 & G). repeat split; assumption.
     - now apply Inv2_do_mass.
+    - rewrite pure. now apply Inv2_do_weak.
   Qed.
 
   Lemma Inv2_run : forall h s, Inv2 s -> Inv2 (fold_left (step T) h s).
@@ -203,6 +205,6 @@ Definition repaired : tables :=
                            [(FDepth, Own); (FNcrit, Own); (FNear, Global); (FOrder, Own); (QReg, Own)]));
                    (CFmmPotential, ([(QReg, Own); (FDepth, Own); (FOrder, Own); (FNcrit, Own)],
                                     [(FDepth, Own); (FNcrit, Own); (FOrder, Own); (QReg, Own)])) ];
-     t_mass_kind := KSparse; t_mass_global := true |}.
+     t_mass_kind := KSparse; t_mass_global := true; t_pure := true |}.
 Example repaired_keys_sufficient : key_sufficient repaired CFmm = true /\ key_sufficient repaired CFmmPotential = true.
 Proof. split; reflexivity. Qed.
